@@ -286,6 +286,7 @@ def make_case(rng, family=None):
     nvar = 1 if rng.random() < 0.8 else 2
     return {"kind": "sim", "family": family, "spec": spec, "steady": steady, "meta": meta, "source": rr["source"], "context": rr["context"],
             "T": T, "unant": unant, "ant": ant, "msh": msh, "init": init, "nvar": nvar,
+            "warmup": int(rng.integers(1, 3)) if rng.random() < 0.5 else 0,
             "deviation_modes": [bool(rng.random() < 0.5)] if rng.random() < 0.6 else [False, True],
             "freq": str(rng.choice(["qq", "mm", "yy", "ii"]))}
 
@@ -377,6 +378,10 @@ def run_case(c, case):
                 has_steady = True
             except Exception:
                 has_steady = False
+            # an (accidental or planted) unit root with a constant has no steady state; irispie's linear steady solver
+            # then returns a least-squares point without reporting failure: the level = steady + deviation claim does not apply
+            if has_steady and not all(linre.linear_steady_exists(spec, vp, True) for vp in variants_params):
+                has_steady = False
         try:
             with rt.quiet():
                 m.solve()
@@ -464,6 +469,17 @@ def run_case(c, case):
                     a = np.asarray(sdb[n].get_data(full), dtype=float)
                     sp[n] = a[:, v] if a.shape[1] > 1 else a[:, 0]
                 steady_paths.append(sp)
+            if case.get("warmup") and case["ant"]:
+                # history of the model object: an earlier simulation with a SHORTER anticipated horizon on the same solved
+                # model (caches such as the forward expansion must not make later results depend on it)
+                try:
+                    wdb = base_db.copy()
+                    h1 = int(case["warmup"])
+                    wdb["ant_" + case["ant"][0][0]][start + min(h1, T - 1)] = 0.1 if family == "L" else 0.01
+                    with rt.quiet():
+                        m.simulate(wdb, span, method="first_order", deviation=deviation)
+                except Exception:
+                    pass
             register(m, {"spec": spec, "lin": lins[0], "lins": lins, "case": case, "family": family, "ext_db": db,
                          "steady_paths": steady_paths, "n_unit": classes[0]["n_unit"],
                          "log_pattern": "".join("L" if q.get("log") else "-" for q in spec["tvars"])[:6]})
